@@ -202,7 +202,8 @@ func (s *orRuleSetLoader) makeTypeFromRuleSet() {
 	CompileBasic(&typ, false)
 
 	lex := s.node.BasisLexEventOfSchemaForNode()
-	name := s.rootSchema.AddUnnamedType(&typ, lex.File(), lex.Begin())
+	// The lexemes of the node are positions in this file already: no offset.
+	name := s.rootSchema.AddUnnamedType(&typ, lex.File(), 0)
 
 	c.AddNameWithASTNode(name, s.typeRoot.Type().String(), an)
 }
